@@ -31,6 +31,9 @@
 (*                            materialised from the upper one               *)
 (*             `lltsa_fixed`= after F9 AND fix F25 (the `lhs` rank update   *)
 (*                            by the feature sum removed)                   *)
+(*             `lltsa_centred` = after F9, F25 AND fix F42 (commit 5b39b3c, *)
+(*                            CURRENT): the mean is computed first and both *)
+(*                            sides are accumulated from x - mean           *)
 (*                                                                         *)
 (*  Data layout: X : mat F is the D x N feature matrix (X f s = feature f  *)
 (*  of sample s; tapkee's eigen_features_callback hands out column s).     *)
@@ -115,6 +118,21 @@ Section PencilModel.
     let lhs := acc_sparse X W mzero in
     {| p_lhs := sym_from_upper lhs; p_rhs := sym_from_upper rhs |}.
 
+  (* fixes/F42 (current code):
+       for iter: mean += x;            mean /= (end - begin);
+       for iter: v = x - mean;         rhs.selfadjointView<Upper>().rankUpdate(v);
+       for stored (r,c,value): vi = x_r - mean; vj = x_c - mean;
+                                       lhs.selfadjointView<Upper>().rankUpdate(vi, vj, value);   *)
+  Definition compute_mean0 (X : mat F) (N : nat) : vec F :=
+    fun f => feature_sum X N f / of_nat N.
+  Definition centred (X : mat F) (N : nat) : mat F :=
+    fun f s => X f s - compute_mean0 X N f.
+  Definition lltsa_centred (X : mat F) (N : nat) (W : sparse) : pencil :=
+    let Xc := centred X N in
+    let rhs := acc_samples Xc N (fun _ => 1) mzero in
+    let lhs := acc_sparse Xc W mzero in
+    {| p_lhs := sym_from_upper lhs; p_rhs := sym_from_upper rhs |}.
+
   Definition lpp_repaired (X : mat F) (N : nat) (L : sparse) (dv : vec F) : pencil :=
     let rhs := acc_samples X N dv mzero in
     let lhs := acc_sparse X L mzero in
@@ -146,8 +164,7 @@ Section PencilModel.
     end.
 
   (* routines/pca.hpp compute_mean: mean += v for every sample; mean.array() /= (end - begin) *)
-  Definition compute_mean (X : mat F) (N : nat) : vec F :=
-    fun f => feature_sum X N f / of_nat N.
+  Definition compute_mean (X : mat F) (N : nat) : vec F := compute_mean0 X N.
 
   (* routines/pca.hpp project: embedding.row(s) = P^T * (x_s - mean)   (N x d) *)
   Definition project (D : nat) (P : mat F) (m : vec F) (X : mat F) : mat F :=
@@ -163,7 +180,7 @@ Section PencilModel.
     end.
 
   Inductive method : Type := NPE | LLTSA | LPP.
-  Inductive variant : Type := VShipped | VF9 | VF25.
+  Inductive variant : Type := VShipped | VF9 | VF25 | VF42.
 
   (* Xl : D rows of N entries.  sites: 0 = feature matrix shape, 1 = sparse index, 2 = N = 0 in
      -1./(end-begin), 4 = degree vector length *)
@@ -185,6 +202,7 @@ Section PencilModel.
                      | VShipped => lltsa_shipped X N W
                      | VF9 => lltsa_repaired X N W
                      | VF25 => lltsa_fixed X N W
+                     | VF42 => lltsa_centred X N W
                      end in
             Ok (mtab D D (p_lhs p), mtab D D (p_rhs p))
         | LPP =>
